@@ -49,7 +49,7 @@ def concrete(kind, opt):
     """(mission, fly kwargs) for an abstract mission kind under an option set."""
     w = opt == 'weather'
     a, b = ('BOS', 'JFK') if w else ('BOS', 'LAX')
-    if kind == 'ok1':
+    if kind in ('ok1', 'ok_other_model'):
         return mission(a, b), {}
     if kind == 'ok2':
         return (mission('JFK', 'BOS') if w else mission('SFO', 'ORD', load_factor=0.7)), {}
@@ -113,10 +113,36 @@ def new_builder(opt):
     return tb.LegacyBuilder(options=tb.Options(**OPTS[opt]))
 
 
+def other_model():
+    """A second valid performance model: the sample table with every fuel flow scaled
+    by 1.25 and a lower ceiling (so cruise altitude, cruise reference and burn all differ)."""
+    global _pm_other
+    if _pm_other is None:
+        import tomllib
+
+        from AEIC.config import config
+        from AEIC.performance.models import PerformanceModel
+
+        with open(config.file_location('performance/sample_performance_model.toml'), 'rb') as fp:
+            d = tomllib.load(fp)
+        fk = next(k for k in d if k.lower() == 'flight_performance')
+        iff = [c.lower() for c in d[fk]['cols']].index('fuel_flow')
+        d[fk]['data'] = [[(v * 1.25 if j == iff else v) for j, v in enumerate(r)] for r in d[fk]['data']]
+        ck = next(k for k in d if k.lower() == 'maximum_altitude_ft')
+        d[ck] = d[ck] - 4000
+        _pm_other = PerformanceModel.from_data(d)
+    return _pm_other
+
+
+_pm_other = None
+
+
 def fly(builder, pm, kind, opt):
     import AEIC.trajectories.builders as tb
 
     m, kw = concrete(kind, opt)
+    if kind == 'ok_other_model':
+        pm = other_model()
     del _rec[:]
     try:
         t = builder.fly(pm, m, **kw)
@@ -228,8 +254,8 @@ def run_massiter(job):
 
 def run(ctx: Ctx):
     ctx.rule = (
-        'sequences = every sequence of N flights (N = 2 quick / 3 thorough; mass-iterating option sets one shorter) over 8 mission kinds '
-        '(2 valid, unknown origin/destination, destination above cruise level, overweight start, missing weather file, outside weather domain) '
+        'sequences = every sequence of N flights (N = 2 quick / 3 thorough; mass-iterating option sets one shorter) over 9 mission kinds '
+        '(2 valid, 1 valid flown with a second performance model, unknown origin/destination, destination above cruise level, overweight start, missing weather file, outside weather domain) '
         'for 4 option sets, TLC-enumerated; with weather additionally every triple flown / any / flown; non-trivial = contains a failing flight followed by another flight'
     )
     ctx.assumptions += [
